@@ -1,4 +1,5 @@
 import DustVerif.Proofs.HistLemmas
+import DustVerif.Model.HistOps
 /-! Property C24 (EXCLUSIVE ownership): a sample from a writer that is not stronger than the current owner
     of the instance is never stored; a strictly stronger matched writer passes the ownership filter and
     becomes the owner. -/
@@ -92,5 +93,311 @@ example :
     let s1 := (addChange s0 1 "a" .alive 5 (some 10) 100).1
     (addChange s1 2 "b" .alive 5 (some 20) 200).2 = .notAdded ∧
     (addChange s1 3 "c" .alive 5 (some 30) 300).2 = .added := by decide
+
+/-- ownership entries are unique per instance (invariant of the model: entries are only appended when absent) -/
+def OwnUnique : List Own → Prop
+  | [] => True
+  | o :: os => findOwn o.inst os = none ∧ OwnUnique os
+
+theorem findOwn_eraseOwn_unique (h : Nat) (l : List Own) (hu : OwnUnique l) : findOwn h (eraseOwn h l) = none := by
+  induction l with
+  | nil => rfl
+  | cons x xs ih =>
+    unfold eraseOwn
+    by_cases hx : x.inst = h
+    · simp only [hx, if_true]
+      have := hu.1; rw [hx] at this; exact this
+    · simp only [hx, if_false, findOwn]
+      exact ih hu.2
+
+/-- with no ownership entry for the instance every writer passes the filter and becomes the owner -/
+theorem ownershipFilter_free (s1 : St) (w h rts : Nat) (hex : s1.qos.exclusive = true)
+    (hfree : findOwn h s1.owns = none) :
+    ownershipFilter s1 w h rts = some (s1.owns ++ [{ inst := h, owner := w, lastRecv := rts }]) := by
+  unfold ownershipFilter
+  simp [hex, hfree]
+
+theorem findOwn_mapOwn_none (h h' : Nat) (f : Own → Own) (hf : ∀ o, (f o).inst = o.inst) (l : List Own)
+    (hn : findOwn h l = none) : findOwn h (mapOwn h' f l) = none := by
+  induction l with
+  | nil => rfl
+  | cons x xs ih =>
+    unfold findOwn at hn
+    by_cases hx : x.inst = h
+    · simp [hx] at hn
+    · simp only [hx, if_false] at hn
+      unfold mapOwn
+      by_cases hx' : x.inst = h'
+      · simp only [hx', if_true, findOwn, hf]
+        rw [hx'] at hx
+        simp [hx, hn]
+      · simp only [hx', if_false, findOwn, hx]
+        exact ih hn
+
+theorem ownUnique_mapOwn (h' : Nat) (f : Own → Own) (hf : ∀ o, (f o).inst = o.inst) (l : List Own)
+    (hu : OwnUnique l) : OwnUnique (mapOwn h' f l) := by
+  induction l with
+  | nil => trivial
+  | cons x xs ih =>
+    unfold mapOwn
+    by_cases hx : x.inst = h'
+    · simp only [hx, if_true]
+      exact ⟨by rw [hf]; exact hu.1, hu.2⟩
+    · simp only [hx, if_false]
+      exact ⟨findOwn_mapOwn_none x.inst h' f hf xs hu.1, ih hu.2⟩
+
+theorem findOwn_append_none (h : Nat) (l : List Own) (x : Own) (hn : findOwn h l = none) (hx : x.inst ≠ h) :
+    findOwn h (l ++ [x]) = none := by
+  induction l with
+  | nil => simp [findOwn, hx]
+  | cons y ys ih =>
+    unfold findOwn at hn
+    by_cases hy : y.inst = h
+    · simp [hy] at hn
+    · simp only [hy, if_false] at hn
+      simp [findOwn, hy, ih hn]
+
+theorem ownUnique_append (l : List Own) (x : Own) (hu : OwnUnique l) (hn : findOwn x.inst l = none) :
+    OwnUnique (l ++ [x]) := by
+  induction l with
+  | nil => exact ⟨rfl, trivial⟩
+  | cons y ys ih =>
+    unfold findOwn at hn
+    by_cases hy : y.inst = x.inst
+    · simp [hy] at hn
+    · simp only [hy, if_false] at hn
+      exact ⟨findOwn_append_none y.inst ys x hu.1 (fun e => hy e.symm), ih hu.2 hn⟩
+
+theorem findOwn_eraseOwn_other (h h' : Nat) (l : List Own) (hn : findOwn h l = none) :
+    findOwn h (eraseOwn h' l) = none := by
+  induction l with
+  | nil => rfl
+  | cons x xs ih =>
+    unfold findOwn at hn
+    by_cases hx : x.inst = h
+    · simp [hx] at hn
+    · simp only [hx, if_false] at hn
+      unfold eraseOwn
+      by_cases hx' : x.inst = h'
+      · simp only [hx', if_true]; exact hn
+      · simp only [hx', if_false, findOwn, hx]; exact ih hn
+
+theorem ownUnique_eraseOwn (h' : Nat) (l : List Own) (hu : OwnUnique l) : OwnUnique (eraseOwn h' l) := by
+  induction l with
+  | nil => trivial
+  | cons x xs ih =>
+    unfold eraseOwn
+    by_cases hx : x.inst = h'
+    · simp only [hx, if_true]; exact hu.2
+    · simp only [hx, if_false]
+      exact ⟨findOwn_eraseOwn_other x.inst h' xs hu.1, ih hu.2⟩
+
+theorem findOwn_dropOwner_none (h w : Nat) (l : List Own) (hn : findOwn h l = none) :
+    findOwn h (dropOwner w l) = none := by
+  induction l with
+  | nil => rfl
+  | cons x xs ih =>
+    unfold findOwn at hn
+    by_cases hx : x.inst = h
+    · simp [hx] at hn
+    · simp only [hx, if_false] at hn
+      unfold dropOwner
+      by_cases hw : x.owner = w
+      · simp only [hw, if_true]; exact ih hn
+      · simp only [hw, if_false, findOwn, hx]; exact ih hn
+
+theorem ownUnique_dropOwner (w : Nat) (l : List Own) (hu : OwnUnique l) : OwnUnique (dropOwner w l) := by
+  induction l with
+  | nil => trivial
+  | cons x xs ih =>
+    unfold dropOwner
+    by_cases hw : x.owner = w
+    · simp only [hw, if_true]; exact ih hu.2
+    · simp only [hw, if_false]
+      exact ⟨findOwn_dropOwner_none x.inst w xs hu.1, ih hu.2⟩
+
+theorem ownershipFilter_unique (s1 : St) (w h rts : Nat) (o2 : List Own) (hu : OwnUnique s1.owns)
+    (hf : ownershipFilter s1 w h rts = some o2) : OwnUnique o2 := by
+  unfold ownershipFilter at hf
+  cases hex : s1.qos.exclusive with
+  | false =>
+    simp only [hex, Bool.false_eq_true, if_false] at hf
+    injection hf with hf; subst hf; exact hu
+  | true =>
+    cases ho : findOwn h s1.owns with
+    | none =>
+      simp only [hex, ho, if_true, Bool.false_eq_true, if_false] at hf
+      injection hf with hf; subst hf
+      exact ownUnique_append s1.owns _ hu ho
+    | some o =>
+      simp only [hex, ho, if_true] at hf
+      split at hf
+      · split at hf
+        · cases hf
+        · injection hf with hf; subst hf
+          exact ownUnique_mapOwn h (fun o => { o with owner := w }) (fun _ => rfl) s1.owns hu
+      · simp at hf
+
+/-- the ownership list never holds two entries for one instance: invariant of `addChange` -/
+theorem addChange_ownUnique (s : St) (w : Nat) (data : String) (k : Kind) (h : Nat) (sts : Option Nat) (rts : Nat)
+    (hu : OwnUnique s.owns) : OwnUnique (addChange s w data k h sts rts).1.owns := by
+  generalize hr : addChange s w data k h sts rts = r
+  unfold addChange at hr
+  split at hr
+  · subst hr; exact hu
+  · rename_i insts1 _
+    simp only [] at hr
+    split at hr
+    · subst hr; exact hu
+    · rename_i owns2 hof
+      have huo : OwnUnique owns2 := ownershipFilter_unique { s with insts := insts1 } w h rts owns2 hu hof
+      unfold afterOwnership at hr
+      cases hk : k.isAliveKind with
+      | true =>
+        simp only [mkSample, hk, if_true] at hr
+        split at hr
+        · subst hr; exact huo
+        · unfold finishAdd at hr
+          simp only [hk, if_true] at hr
+          split at hr
+          · subst hr; exact huo
+          · split at hr
+            · subst hr; exact huo
+            · split at hr
+              · subst hr; exact huo
+              · subst hr
+                simp only []
+                split
+                · exact ownUnique_mapOwn _ _ (fun o => by split <;> rfl) _ huo
+                · rename_i hnone
+                  exact ownUnique_append _ _ huo hnone
+      | false =>
+        simp only [mkSample, hk, Bool.false_eq_true, if_false] at hr
+        have hu3 := ownUnique_eraseOwn h owns2 huo
+        split at hr
+        · subst hr; exact hu3
+        · unfold finishAdd at hr
+          simp only [hk, Bool.false_eq_true, if_false] at hr
+          split at hr
+          · subst hr; exact hu3
+          · split at hr
+            · subst hr; exact hu3
+            · split at hr
+              · subst hr; exact hu3
+              · subst hr; exact hu3
+
+/-- C24 (invariant): in every reachable state each instance has at most one ownership entry -/
+theorem C24_owner_unique (q : Qos) (en : Bool) (ops : List Op) : OwnUnique (run (St.init q en) ops).owns := by
+  suffices ∀ s, OwnUnique s.owns → OwnUnique (run s ops).owns from this _ trivial
+  induction ops with
+  | nil => intro s hs; exact hs
+  | cons op ops ih =>
+    intro s hs
+    apply ih
+    cases op with
+    | add w data k h sts rts => exact addChange_ownUnique s w data k h sts rts hs
+    | readTake max m only take =>
+      show OwnUnique (readOrTake s max m only take).1.owns
+      unfold readOrTake collect
+      split
+      · exact hs
+      · split
+        · exact hs
+        · simp only []; split <;> exact hs
+    | nextInstance max prev m take =>
+      show OwnUnique (readTakeNextInstance s max prev m take).1.owns
+      have : ∀ fuel p, OwnUnique (nextInstanceLoop s max m take fuel p).1.owns := by
+        intro fuel
+        induction fuel with
+        | zero => intro p; exact hs
+        | succ n ihn =>
+          intro p
+          unfold nextInstanceLoop
+          split
+          · exact hs
+          · split
+            · exact ihn _
+            · rename_i h' _ r hne
+              unfold readOrTake collect
+              split
+              · exact hs
+              · split
+                · exact hs
+                · simp only []; split <;> exact hs
+      unfold readTakeNextInstance
+      split
+      · exact hs
+      · exact this _ _
+    | pub w st => exact hs
+    | unpub w =>
+      show OwnUnique (removePub s w).owns
+      unfold removePub
+      split
+      · exact ownUnique_dropOwner w s.owns hs
+      · exact hs
+    | rejStatus => exact hs
+
+/-- C24 (hand-over on dispose / unregister): after a not-alive change that was stored (it passed the ownership filter,
+    i.e. came from the owner or a stronger writer) the instance has NO owner any more — so by `ownershipFilter_free`
+    the next data sample of ANY matched writer passes the ownership filter and that writer becomes the owner -/
+theorem C24_handover_on_unregister (s : St) (w : Nat) (data : String) (k : Kind) (h : Nat) (sts : Option Nat)
+    (rts : Nat) (hk : k.isAliveKind = false) (hu : OwnUnique s.owns)
+    (hadd : (addChange s w data k h sts rts).2 = .added) :
+    findOwn h (addChange s w data k h sts rts).1.owns = none := by
+  generalize hr : addChange s w data k h sts rts = r at hadd ⊢
+  unfold addChange at hr
+  split at hr
+  · subst hr; cases hadd
+  · rename_i insts1 _
+    simp only [] at hr
+    split at hr
+    · subst hr; cases hadd
+    · rename_i owns2 hof
+      have huo : OwnUnique owns2 := ownershipFilter_unique { s with insts := insts1 } w h rts owns2 hu hof
+      unfold afterOwnership at hr
+      simp only [mkSample, hk, Bool.false_eq_true, if_false] at hr
+      split at hr
+      · subst hr; cases hadd
+      · unfold finishAdd at hr
+        simp only [hk, Bool.false_eq_true, if_false] at hr
+        split at hr
+        · subst hr; cases hadd
+        · split at hr
+          · subst hr; cases hadd
+          · split at hr
+            · subst hr; cases hadd
+            · subst hr
+              exact findOwn_eraseOwn_unique h owns2 huo
+
+theorem findOwn_dropOwner (h w : Nat) (l : List Own) (o : Own) (ho : findOwn h (dropOwner w l) = some o) :
+    o.owner ≠ w := by
+  induction l with
+  | nil => simp [dropOwner, findOwn] at ho
+  | cons x xs ih =>
+    unfold dropOwner at ho
+    by_cases hx : x.owner = w
+    · simp only [hx, if_true] at ho; exact ih ho
+    · simp only [hx, if_false] at ho
+      unfold findOwn at ho
+      by_cases hi : x.inst = h
+      · simp only [hi, if_true] at ho; injection ho with ho; subst ho; exact hx
+      · simp only [hi, if_false] at ho; exact ih ho
+
+/-- C24 (hand-over when the owner is deleted): after a matched writer is removed no instance is owned by it, so it
+    can no longer block the remaining writers -/
+theorem C24_handover_on_writer_removed (s : St) (w : Nat) (st : Int) (hm : findPub w s.pubs = some st) (h : Nat) (o : Own)
+    (ho : findOwn h (removePub s w).owns = some o) : o.owner ≠ w := by
+  unfold removePub at ho
+  simp only [hm] at ho
+  exact findOwn_dropOwner h w s.owns o ho
+
+/-- regression witness for the repaired defects D54/D55: owner 1 (strength 10) unregisters, or is removed; the
+    weaker writer 2 is then accepted -/
+example :
+    let s0 := addPub (addPub (St.init exQos24 true) 1 10) 2 5
+    let s1 := (addChange s0 1 "a" .alive 5 (some 10) 100).1
+    (addChange s1 2 "b" .alive 5 (some 11) 101).2 = .notAdded ∧
+    (addChange (addChange s1 1 "" .unregistered 5 (some 12) 102).1 2 "c" .alive 5 (some 13) 103).2 = .added ∧
+    (addChange (removePub s1 1) 2 "d" .alive 5 (some 13) 103).2 = .added := by decide
 
 end DustVerif.Hist
